@@ -14,7 +14,7 @@ RULE = ('cells x 24 option combinations (closed_ring in {omitted, True, False} x
         'frame point, and structured deep ids at r in 4..29. Per ring: vertex count (3 at r=1 else 5) x s [+1], closure iff closed_ring, '
         'latitudes in [-90,90], counter-clockwise and simple in the gnomonic plane at the centroid, corner points independent of the '
         'options (compared on the sphere), and - unless a pole is in / on the cell by the ring oracle - no longitude jump >= 180 between '
-        'consecutive vertices and span < 180; options dict unchanged. distinct = distinct (id, options); non-trivial = r>=1 or segments>1')
+        'consecutive vertices and span < 180; options dict unchanged; on a quarter of the calls the returned ring is edited in place and the call repeated (must give the same ring again). distinct = distinct (id, options); non-trivial = r>=1 or segments>1')
 ASSUMPTIONS = ['corner tolerance max(1e-9 w, 1e-13 rad); a longitude differing by a whole turn is the same point',
                'orientation is judged in the gnomonic plane at the ring centroid, seen from outside the sphere']
 
@@ -57,6 +57,24 @@ def eval_cell(a5, geo, c, r, cls, ctx, combos=None):
                 continue
             if opts != snap:
                 ctx.fail('options_mutated', case, now=opts)
+            if ctx.rnd.random() < 0.25:
+                # hostile caller: edit the ring that was handed out (a renderer closing / reversing / trimming it in place), then
+                # ask for the same ring again
+                keep = [tuple(p) for p in ring]
+                first = ring
+                try:
+                    first.reverse()
+                    first.pop()
+                    if first and isinstance(first[0], list):
+                        first[0][0] = 0.0
+                    ring = a5.cell_to_boundary(c, copy.deepcopy(snap)) if snap else a5.cell_to_boundary(c)
+                except Exception as e:
+                    ctx.fail('raises', case, exc=repr(e), after_editing_earlier_result=True)
+                    continue
+                ctx.count('edit_result_and_repeat')
+                if [tuple(p) for p in ring] != keep or ring is first:
+                    ctx.fail('ring_depends_on_edited_earlier_result', case, got_len=len(ring), want_len=len(keep))
+                    continue
             s = sg if isinstance(sg, int) else auto_segments(r)
             closed = cr in ('omit', True)
             want = edges * s + (1 if closed else 0)
